@@ -10,6 +10,7 @@ import (
 
 	"github.com/openbao/openbao/v2/internal/audit"
 	"github.com/openbao/openbao/sdk/v2/helper/salt"
+	"github.com/openbao/openbao/sdk/v2/helper/simsync"
 	"github.com/openbao/openbao/sdk/v2/logical"
 )
 
@@ -46,7 +47,10 @@ type simAuditDev struct {
 	name         string
 	formatter    audit.AuditFormatter
 	formatConfig audit.FormatterConfig
-	saltMutex    sync.Mutex
+	// held across storage reads (salt creation parks at the disk gate), so it
+	// must be a scheduler-granted lock: a waiter on a plain sync.Mutex is not
+	// durably blocked and would stall the bubble
+	saltMutex simsync.Mutex
 	salt         *salt.Salt
 	saltConfig   *salt.Config
 	saltView     logical.Storage
